@@ -1998,6 +1998,18 @@ func runC07(s c07Scn, spoolRoot string, prog *hx.Log) []ev {
 	}
 	empty := func() bool { return st.spoolIdle() && d.VerifSpoolDepth() == 0 && d.VerifSpoolBuffered() == 0 }
 	drained := pollProgress(60*time.Second, 15*time.Minute, empty, progress)
+	if s.FlushMs >= 60000 {
+		// no periodic flush in this scenario: what the connection writer holds in its io buffer is in flight, not lost;
+		// the manual flush (a round trip through relay loop and writer) puts it on the wire
+		fd := make(chan error, 1)
+		go func() { fd <- d.Flush() }()
+		select {
+		case <-fd:
+		case <-time.After(30 * time.Second):
+			evs = append(evs, ev{"ev": "timeout", "scn": s.ID, "what": "final flush"})
+			return evs
+		}
+	}
 	complete := pollProgress(30*time.Second, 15*time.Minute, func() bool {
 		c := readCounters(key).sub(base)
 		m, _ := e.missing(handed, 0)
